@@ -12,7 +12,8 @@ Property clause → theorem  (model: `Comdex/Model/Liquidation.lean`, both gener
       generation-1 message with any app/id: every vault that disappears satisfies the code's test `CR < MinCr` on the
       recorded debt; every unflagged borrow that fails the code's test keeps its record),
       `C09.ratio_test_safe_side_exact` / `C09.borrow_ratio_test_safe_side_exact` (the `Dec` roundings never turn an
-      exact ratio on the safe side into a failing test), `C09.unsafe_test_is_strict`.
+      exact ratio on the safe side into a failing test), `C09.unsafe_test_is_strict`, `C09.borrow_threshold_cases` (which of
+      the three thresholds applies to which kind of borrow) and `C09.borrow_at_or_below_threshold_is_safe` (all three cases).
 * batched sweep: `C09.slice_in_bounds` (`0 ≤ start ≤ end ≤ len` for ALL `len ≥ 0`, `off`, `batch`, also negative ones),
   `C09.slice_panics_iff_counter_exceeds_list` (the list is sliced by bounds computed from an independent counter:
   exactly when that panics — used by C15), `C09.pass_follows_abstract_sweep`.
@@ -65,6 +66,32 @@ test above it. -/
 theorem borrow_ratio_test_safe_side_exact (tout tin thr : Dec) (hout : 0 ≤ tout) (hin : 0 < tin)
     (h : tout * Dec.P ≤ thr * tin) : ¬ (Dec.quo tout tin > thr) := by
   exact Int.not_lt.mpr (quo_le_of_ratio_le tout tin thr hout hin h)
+
+/-- **Which threshold applies to which kind of borrow** (liquidate.go:300-356): a same-pool borrow (no bridged amount) is
+judged against the collateral asset's threshold; a cross-pool borrow whose bridged coin is the FIRST transit asset of the
+lender's pool against collateral threshold × first transit asset's threshold; every other cross-pool borrow against
+collateral threshold × SECOND transit asset's threshold; the collateral threshold is the e-mode one iff the pair is in e-mode. -/
+theorem borrow_threshold_cases (b : Borrow) :
+    (b.bridgedAmount = 0 → borrowThreshold b = b.baseThreshold) ∧
+    (b.bridgedAmount ≠ 0 → b.bridgedAsset = b.firstTransit → borrowThreshold b = Dec.mul b.baseThreshold b.ltFirst) ∧
+    (b.bridgedAmount ≠ 0 → b.bridgedAsset ≠ b.firstTransit → borrowThreshold b = Dec.mul b.baseThreshold b.ltSecond) ∧
+    (b.baseThreshold = if b.emode then b.elt else b.lt) := by
+  refine ⟨fun h => ?_, fun h1 h2 => ?_, fun h1 h2 => ?_, rfl⟩
+  · unfold borrowThreshold Borrow.bridge; simp [h]
+  · unfold borrowThreshold Borrow.bridge; simp [h1, h2]
+  · unfold borrowThreshold Borrow.bridge; simp [h1, h2]
+
+/-- **A borrow at or below its applicable threshold is not unsafe** — all three cases, all inputs: if the exact quotient
+debt value / collateral value is `≤ borrowThreshold b` the code's test `ratio.GT(threshold)` fails, so (by
+`safe_never_seized`) neither the sweep nor a message touches it. -/
+theorem borrow_at_or_below_threshold_is_safe (e : Env) (b : Borrow) (tin tout : Dec)
+    (hin : e.valueOf b.assetIn b.amountIn = some tin) (hout : e.valueOf b.assetOut b.debt = some tout)
+    (hpos : 0 < tin) (hnn : 0 ≤ tout) (h : tout * Dec.P ≤ borrowThreshold b * tin) : borrowUnsafe e b = false := by
+  unfold borrowUnsafe borrowRatio
+  have hne : ¬ (tin = 0) := fun h0 => by rw [h0] at hpos; exact absurd hpos (by decide)
+  simp only [hin, hout, hne, if_false]
+  have := borrow_ratio_test_safe_side_exact tout tin (borrowThreshold b) hnn hpos h
+  simpa using this
 
 /-! ## the batched sweep -/
 
@@ -267,8 +294,9 @@ def leakEnv : Env :=
     apps := [{ id := 3, wl2 := true, dutch2 := false }] }
 
 def leakWorld : World :=
-  { borrows := [{ id := 1, app := 3, pool := 1, assetIn := 6, assetOut := 7, amountIn := 100000000, debt := 65000000, bridge := .same,
-                  liquidated := false, lt := 750000000000000000, ltFirst := 850000000000000000, ltSecond := 750000000000000000 }]
+  { borrows := [{ id := 1, app := 3, pool := 1, assetIn := 6, assetOut := 7, amountIn := 100000000, debt := 65000000,
+                  bridgedAmount := 0, bridgedAsset := 0, firstTransit := 8, secondTransit := 6, liquidated := false, emode := false,
+                  lt := 750000000000000000, elt := 0, ltFirst := 850000000000000000, ltSecond := 750000000000000000 }]
     poolBal := [(6, 1000000000)], auctionBal := [(6, 0)] }
 
 /-- the former leak witness (lend app whitelisted, no auction type activated, borrow unsafe): the hook now leaves the
